@@ -282,6 +282,8 @@ def main(quick=False):
 
         def fr(m, rows_arr, *rest):
             x = op_real(real_of(rows_arr), *rest)
+            if isinstance(x, tuple):
+                return tuple(np.asarray(e) for e in x)
             return (np.asarray(x.lengths), np.asarray(x.ravel())) if isinstance(x, RaggedArray) else np.asarray(x)
         return fs, fr
 
@@ -312,6 +314,10 @@ def main(quick=False):
           [(r,) for r in ROWS], max_index=8)
     audit("SpecRagged row counts of a boolean ragged array", *both(lambda x: (x[:, :-1] != x[:, 1:]).sum(axis=-1)), [(r,) for r in ROWS], max_index=8)
     audit("SpecRagged x[ragged mask]", *both(lambda x: x[:, 1:][x[:, :-1] != x[:, 1:]]), [(r,) for r in ROWS + [Rows([[1, 1, 2], [3, 3]]), Rows([[4, 5, 5, 6]])]], max_index=8)
+    audit("SpecRagged row max / min", *both(lambda x: (x.max(axis=-1), x.min(axis=-1))), [(r,) for r in ROWS], max_index=8)
+    audit("SpecRagged nonzero", *both(lambda x: np.nonzero(x[:, :-1] != x[:, 1:])), [(r,) for r in ROWS + [Rows([[1, 1, 2], [3, 3]]), Rows([[4, 5, 5, 6]])]], max_index=8)
+    audit("SpecRagged x[rows, cols]", *both(lambda x: x[np.arange(len(x) if not isinstance(x, SpecRagged) else int(str(x._shape.n))), np.zeros(len(x) if not isinstance(x, SpecRagged) else int(str(x._shape.n)), dtype=int)]),
+          [(r,) for r in ROWS], max_index=8)
     audit("uint64 shifts (shift >= 64 gives 0)", lambda m, x, s: (x << s, x >> s), lambda m, x, s: (x << s, x >> s),
           [(np.array([1, 2 ** 63, 2 ** 64 - 1, 5], dtype=np.uint64), np.uint64(s)) for s in (0, 1, 8, 63, 64)])
     dt = time.time() - t0
